@@ -1,8 +1,199 @@
-//! Structured MIR of generated fns (engine A).
+//! Structured MIR of generated fns (engine A): locals, statements, terminators with resolved callees.
+use crate::hirfacts::{def_str, ty_str};
 use crate::json::J;
-use rustc_middle::ty::TyCtxt;
+use rustc_middle::mir::{self, AggregateKind, BinOp, Operand, Place, ProjectionElem, Rvalue, StatementKind, TerminatorKind};
+use rustc_middle::ty::{self, TyCtxt};
 use rustc_span::def_id::LocalDefId;
 
-pub fn fn_mir<'tcx>(_tcx: TyCtxt<'tcx>, _did: LocalDefId) -> J {
-    J::Null
+fn place_json<'tcx>(tcx: TyCtxt<'tcx>, body: &mir::Body<'tcx>, p: &Place<'tcx>) -> J {
+    let mut proj = Vec::new();
+    let mut t = mir::PlaceTy::from_ty(body.local_decls[p.local].ty);
+    for e in p.projection.iter() {
+        match e {
+            ProjectionElem::Deref => proj.push(J::obj().set("p", "deref")),
+            ProjectionElem::Field(f, _) => {
+                let mut name: Option<String> = None;
+                if let ty::Adt(def, _) = t.ty.kind() {
+                    let v = match t.variant_index {
+                        Some(vi) => def.variant(vi),
+                        None if def.is_struct() || def.is_union() => def.non_enum_variant(),
+                        None => def.variant(rustc_abi::VariantIdx::from_u32(0)),
+                    };
+                    if let Some(fd) = v.fields.get(f) {
+                        name = Some(fd.name.as_str().to_string());
+                    }
+                }
+                proj.push(J::obj().set("p", "field").set("i", f.as_usize()).set("name", name));
+            }
+            ProjectionElem::Downcast(sym, vi) => {
+                proj.push(J::obj().set("p", "downcast").set("variant", sym.map(|s| s.as_str().to_string())).set("i", vi.as_usize()));
+            }
+            other => proj.push(J::obj().set("p", "other").set("text", format!("{:?}", other))),
+        }
+        t = t.projection_ty(tcx, e);
+    }
+    J::obj().set("local", p.local.as_usize()).set("proj", J::Arr(proj)).set("ty", ty_str(t.ty))
+}
+
+fn const_json<'tcx>(tcx: TyCtxt<'tcx>, c: &mir::ConstOperand<'tcx>) -> J {
+    let t = c.const_.ty();
+    let mut o = J::obj().set("const_ty", ty_str(t));
+    if let ty::FnDef(did, args) = t.kind() {
+        o.put("fn", def_str(tcx, *did));
+        o.put("fn_crate", tcx.crate_name(did.krate).to_string());
+        let targs: Vec<J> = args.types().map(|a| J::s(ty_str(a))).collect();
+        o.put("targs", J::Arr(targs));
+        return o;
+    }
+    let env = ty::TypingEnv::fully_monomorphized();
+    if let Some(si) = c.const_.try_eval_scalar_int(tcx, env) {
+        let size = si.size();
+        match t.kind() {
+            ty::Int(_) => o.put("int", J::Str(si.to_int(size).to_string())),
+            ty::Uint(_) => o.put("int", J::Str(si.to_uint(size).to_string())),
+            ty::Bool => o.put("bool", si.to_uint(size) != 0),
+            _ => o.put("bits", J::Str(si.to_uint(size).to_string())),
+        }
+    } else {
+        o.put("text", format!("{}", c.const_));
+    }
+    o
+}
+
+fn operand_json<'tcx>(tcx: TyCtxt<'tcx>, body: &mir::Body<'tcx>, op: &Operand<'tcx>) -> J {
+    match op {
+        Operand::Copy(p) => J::obj().set("op", "copy").set("place", place_json(tcx, body, p)),
+        Operand::Move(p) => J::obj().set("op", "move").set("place", place_json(tcx, body, p)),
+        Operand::Constant(c) => J::obj().set("op", "const").set("c", const_json(tcx, c)),
+        #[allow(unreachable_patterns)]
+        other => J::obj().set("op", "other").set("text", format!("{:?}", other)),
+    }
+}
+
+fn rvalue_json<'tcx>(tcx: TyCtxt<'tcx>, body: &mir::Body<'tcx>, rv: &Rvalue<'tcx>) -> J {
+    match rv {
+        Rvalue::Use(op, _) => J::obj().set("rv", "use").set("a", operand_json(tcx, body, op)),
+        Rvalue::BinaryOp(op, ab) => {
+            let name = match op {
+                BinOp::Add => "Add",
+                BinOp::AddWithOverflow => "AddWithOverflow",
+                BinOp::AddUnchecked => "AddUnchecked",
+                BinOp::Sub => "Sub",
+                BinOp::SubWithOverflow => "SubWithOverflow",
+                BinOp::SubUnchecked => "SubUnchecked",
+                BinOp::Mul => "Mul",
+                BinOp::MulWithOverflow => "MulWithOverflow",
+                BinOp::Eq => "Eq",
+                BinOp::Ne => "Ne",
+                BinOp::Lt => "Lt",
+                BinOp::Le => "Le",
+                BinOp::Gt => "Gt",
+                BinOp::Ge => "Ge",
+                _ => "",
+            };
+            let n = if name.is_empty() { format!("{:?}", op) } else { name.to_string() };
+            J::obj().set("rv", "bin").set("bop", n).set("a", operand_json(tcx, body, &ab.0)).set("b", operand_json(tcx, body, &ab.1))
+        }
+        Rvalue::UnaryOp(op, a) => J::obj().set("rv", "un").set("uop", format!("{:?}", op)).set("a", operand_json(tcx, body, a)),
+        Rvalue::Ref(_, bk, p) => J::obj().set("rv", "ref").set("mut", matches!(bk, mir::BorrowKind::Mut { .. })).set("place", place_json(tcx, body, p)),
+        Rvalue::RawPtr(_, p) => J::obj().set("rv", "rawptr").set("place", place_json(tcx, body, p)),
+        Rvalue::CopyForDeref(p) => J::obj().set("rv", "use").set("a", J::obj().set("op", "copy").set("place", place_json(tcx, body, p))),
+        Rvalue::Discriminant(p) => J::obj().set("rv", "discriminant").set("place", place_json(tcx, body, p)),
+        Rvalue::Cast(k, a, t) => J::obj().set("rv", "cast").set("kind", format!("{:?}", k)).set("a", operand_json(tcx, body, a)).set("ty", ty_str(*t)),
+        Rvalue::Aggregate(kind, ops) => {
+            let mut o = J::obj().set("rv", "aggregate");
+            match &**kind {
+                AggregateKind::Tuple => o.put("agg", "tuple"),
+                AggregateKind::Array(_) => o.put("agg", "array"),
+                AggregateKind::Adt(did, vi, _, _, _) => {
+                    o.put("agg", "adt");
+                    o.put("adt", def_str(tcx, *did));
+                    let adt = tcx.adt_def(*did);
+                    let v = adt.variant(*vi);
+                    o.put("variant", v.name.as_str());
+                    o.put("variant_index", vi.as_usize());
+                    o.put("fields", J::Arr(v.fields.iter().map(|f| J::s(f.name.as_str())).collect()));
+                }
+                other => o.put("agg", format!("{:?}", other)),
+            }
+            o.put("ops", J::Arr(ops.iter().map(|x| operand_json(tcx, body, x)).collect()));
+            o
+        }
+        other => J::obj().set("rv", "other").set("text", format!("{:?}", other)),
+    }
+}
+
+pub fn fn_mir<'tcx>(tcx: TyCtxt<'tcx>, did: LocalDefId) -> J {
+    if !tcx.is_mir_available(did.to_def_id()) {
+        return J::Null;
+    }
+    let body = tcx.optimized_mir(did.to_def_id());
+    let mut locals = Vec::new();
+    for (l, d) in body.local_decls.iter_enumerated() {
+        let mut o = J::obj().set("id", l.as_usize()).set("ty", ty_str(d.ty));
+        if l.as_usize() >= 1 && l.as_usize() <= body.arg_count {
+            o.put("arg", l.as_usize() - 1);
+        }
+        locals.push(o);
+    }
+    // debug names
+    let mut names = Vec::new();
+    for vdi in &body.var_debug_info {
+        if let mir::VarDebugInfoContents::Place(p) = &vdi.value {
+            names.push(J::obj().set("name", vdi.name.as_str()).set("place", place_json(tcx, body, p)));
+        }
+    }
+    let mut blocks = Vec::new();
+    for (bb, data) in body.basic_blocks.iter_enumerated() {
+        let mut stmts = Vec::new();
+        for st in &data.statements {
+            match &st.kind {
+                StatementKind::Assign(b) => {
+                    let (p, rv) = &**b;
+                    stmts.push(J::obj().set("assign", place_json(tcx, body, p)).set("rv", rvalue_json(tcx, body, rv)));
+                }
+                StatementKind::SetDiscriminant { place, variant_index } => {
+                    stmts.push(J::obj().set("set_discriminant", place_json(tcx, body, place)).set("variant_index", variant_index.as_usize()));
+                }
+                StatementKind::StorageLive(_) | StatementKind::StorageDead(_) | StatementKind::Nop | StatementKind::FakeRead(..) | StatementKind::PlaceMention(..)
+                | StatementKind::AscribeUserType(..) | StatementKind::Coverage(..) | StatementKind::ConstEvalCounter | StatementKind::BackwardIncompatibleDropHint { .. } => {}
+                other => stmts.push(J::obj().set("other", format!("{:?}", other))),
+            }
+        }
+        let term = data.terminator();
+        let tj = match &term.kind {
+            TerminatorKind::Goto { target } => J::obj().set("t", "goto").set("target", target.as_usize()),
+            TerminatorKind::SwitchInt { discr, targets } => {
+                let ts: Vec<J> = targets.iter().map(|(v, b)| J::Arr(vec![J::Str(v.to_string()), J::Int(b.as_usize() as i128)])).collect();
+                J::obj().set("t", "switch").set("discr", operand_json(tcx, body, discr)).set("targets", J::Arr(ts)).set("otherwise", targets.otherwise().as_usize())
+            }
+            TerminatorKind::Return => J::obj().set("t", "return"),
+            TerminatorKind::Unreachable => J::obj().set("t", "unreachable"),
+            TerminatorKind::Drop { target, .. } => J::obj().set("t", "goto").set("target", target.as_usize()).set("drop", true),
+            TerminatorKind::Call { func, args, destination, target, .. } => {
+                let a: Vec<J> = args.iter().map(|x| operand_json(tcx, body, &x.node)).collect();
+                J::obj()
+                    .set("t", "call")
+                    .set("func", operand_json(tcx, body, func))
+                    .set("args", J::Arr(a))
+                    .set("dest", place_json(tcx, body, destination))
+                    .set("target", target.map(|t| t.as_usize()))
+            }
+            TerminatorKind::Assert { cond, expected, msg, target, .. } => {
+                let kind = match &**msg {
+                    mir::AssertKind::Overflow(op, _, _) => format!("Overflow({:?})", op),
+                    mir::AssertKind::BoundsCheck { .. } => "BoundsCheck".to_string(),
+                    mir::AssertKind::DivisionByZero(_) => "DivisionByZero".to_string(),
+                    mir::AssertKind::RemainderByZero(_) => "RemainderByZero".to_string(),
+                    mir::AssertKind::OverflowNeg(_) => "OverflowNeg".to_string(),
+                    other => format!("{:?}", std::mem::discriminant(other)),
+                };
+                J::obj().set("t", "assert").set("cond", operand_json(tcx, body, cond)).set("expected", *expected).set("kind", kind).set("target", target.as_usize())
+            }
+            TerminatorKind::UnwindResume | TerminatorKind::UnwindTerminate(_) => J::obj().set("t", "unwind"),
+            other => J::obj().set("t", "other").set("text", format!("{:?}", std::mem::discriminant(other))),
+        };
+        blocks.push(J::obj().set("id", bb.as_usize()).set("cleanup", data.is_cleanup).set("stmts", J::Arr(stmts)).set("term", tj));
+    }
+    J::obj().set("arg_count", body.arg_count).set("locals", J::Arr(locals)).set("names", J::Arr(names)).set("blocks", J::Arr(blocks))
 }
